@@ -12,7 +12,7 @@ THEOREMS = ["OdeVerif.C07.probe_history_independent", "OdeVerif.C07.run_pointwis
             "OdeVerif.C07.defaults_documented", "OdeVerif.C07.unknown_option_rejected", "OdeVerif.C07.prefix_history_dependent"]
 LEVEL = "proof"
 
-OPTION_MENU = [("output_timestep_symbol", ["dt", "h_step"]), ("differential_order_symbol", ["_D", "__prime"]),
+OPTION_MENU = [("input_time_symbol", ["s", "time"]), ("output_timestep_symbol", ["dt", "h_step"]), ("differential_order_symbol", ["_D", "__prime"]),
                ("simplify_expression", ["sympy.expand(expr)", "expr"]), ("sim_time", ["0.05"]), ("max_step_size", ["0.01"]),
                ("integration_accuracy_abs", ["1E-9"]), ("expression_simplification_threshold", ["500"])]
 
@@ -36,7 +36,21 @@ def case_history(case):
 
 
 def gen_call(rng, kind=None):
-    kind = kind or rng.choice(["plain", "plain", "options", "options", "simplify-arg", "flags", "failing", "bad-option", "empty"])
+    kind = kind or rng.choice(["plain", "plain", "options", "options", "simplify-arg", "flags", "failing", "bad-option", "empty", "function", "function"])
+    if kind == "function":
+        # a function-of-time entry; the same text may recur in other calls of the history with another time symbol / marker
+        tsym = rng.choice(["t", "t", "s", "time"])
+        f = rng.choice(["(e / tau) * %s * exp(-%s / tau)", "exp(-%s / tau)", "%s * exp(-2 * %s)"])
+        f = f.replace("%s", "TT")
+        ind = {"dynamics": [{"expression": "I_k = " + f.replace("TT", rng.choice(["t", "s"]))}, {"expression": "V' = -V / tau_m + I_k", "initial_value": "0"}]}
+        opts = {}
+        if tsym != "t":
+            opts["input_time_symbol"] = tsym
+        if rng.random() < 0.3:
+            opts["differential_order_symbol"] = rng.choice(["_D", "__d"])
+        if opts:
+            ind["options"] = opts
+        return {"indict": ind, "flags": {"disable_stiffness_check": True}, "kind": "function"}
     g = systems.gen_system(rng, shape=rng.choice(["isolated", "offset_single", "mixed_nonlinear", "numeric_dep_analytic", "isolated"]),
                            with_params=rng.choice(["none", "all"]))
     ind = g["indict"]
@@ -96,7 +110,7 @@ def run(ctx, driver):
     cases = [c["case"] for c in ctx.corpus() if "case" in c and "calls" in c["case"]]
     for i in range(ctx.n(40, 400)):
         hist = [gen_call(rng) for _ in range(rng.choice([1, 2, 3, 4]))]
-        probe = gen_call(rng, kind=rng.choice(["plain", "plain", "options", "flags"]))
+        probe = gen_call(rng, kind=rng.choice(["plain", "plain", "options", "flags", "function", "function"]))
         cases.append({"calls": hist + [probe], "hashseeds": [1, 4242] if quick else [1, 4242, 77, 123456]})
     resets = reset_policy_from_source()
     ctx.cov["resets_first_from_source"] = resets
@@ -109,6 +123,8 @@ def run(ctx, driver):
         if res.get("timeout") or res.get("skipped_budget") or res.get("harness_error") or "runner_error" in res.get("history", {}):
             ctx.count("skipped")
             ctx.cov.setdefault("runner_errors", []).append(str(res)[:300])
+            if res.get("harness_error") and "TimeoutExpired" not in res["harness_error"]:
+                ctx.cov.setdefault("harness_errors", []).append(res["harness_error"][:300])
             continue
         kinds = [c["kind"] for c in case["calls"]]
         for k in kinds[:-1]:
